@@ -93,9 +93,9 @@ def configs(ctx):
             for g in grid:
                 cfgs.append(T.finalize(g, rng))
     else:
-        # quick: half of the grid, rotated by the seed (every algorithm x type is still hit)
+        # quick: a third of the grid, rotated by the seed (every algorithm x type is still hit)
         for i, g in enumerate(grid):
-            if (i + ctx.seed) % 2 == 0:
+            if (i + ctx.seed) % 3 == 0:
                 # shorter runs in the quick tier keep the Coq literals small (the stress runs below are the long ones)
                 cfgs.append(T.finalize(dict(g, steps=6 if g["alg"] == "MOEAD" else 8), rng))
     # specials, every run
@@ -309,7 +309,7 @@ def run(ctx):
         "grid_points_total": len(T.all_configs()),
     })
     ctx.rule = ("runs: the grid algorithm(15) x variable type(10 incl. mixed Binary+Integer, very narrow and very wide Real ranges, power-of-two Integer ranges, a user-defined ScaledReal type; Real only for GDE3/OMOPSO/SMPSO/CMAES) x {unconstrained, "
-                "constrained} x {min, max/mixed} x {default, explicit operator} (quick: half of the grid rotated by the seed; thorough: all x4), "
+                "constrained} x {min, max/mixed} x {default, explicit operator} (quick: a third of the grid rotated by the seed; thorough: all x4), "
                 "evaluator/seed/size/scripted-extreme-probability/inject/subclass drawn from ctx.rng, plus restart, injected-population, strict-"
                 "constraint and heavy-extreme-draw specials, plus OMOPSO/SMPSO stress runs (swarm 12-30, leader archive 2-5, six variables with a "
                 "ZDT-like front, 40-60 steps; oracle + aliasing check, not shipped to Coq); non-trivial run = completed >= 3 step boundaries with >= 3 evaluate_all batches, "
